@@ -1,6 +1,7 @@
 import QipVerif.Lemmas.SimPure
 import QipVerif.Lemmas.SimShare
 import QipVerif.Lemmas.SimPulse
+import QipVerif.Lemmas.SimEdit
 import QipVerif.Lemmas.GridStep
 /-!
 # C16 — queries, transformations and simulations are pure and repeatable
@@ -199,6 +200,54 @@ theorem repeat_equal [One P] [Mul P] (B : Backend Q P) (cfg : Cfg) (hcopy : cfg.
 -- non-vacuity: a `run_statistics` call and a `run` with prescribed outcomes are deterministic calls
 example (c : Circuit) (st : Q) : CallDet (Q := Q) .sv c (.stat st none) ∧ CallDet (Q := Q) .sv c (.run st none (some [1])) :=
   ⟨trivial, Or.inr (Or.inl rfl)⟩
+
+/-- **fresh_equivalent_edited.** The simulator reads its circuit object at every `initialize` and `step` and keeps
+nothing derived from the gates (contract of `Model/SimEdit.lean`).  Hence for every history of public calls
+INTERLEAVED WITH IN-PLACE EDITS of the circuit (gate `i` replaced, targets / controls / argument re-assigned — the
+number of operations changed or not), and every deterministic call afterwards: the value returned by the used
+simulator equals the value returned by a freshly constructed simulator of the circuit as it is now (`ch`), given the
+same lists. -/
+theorem fresh_equivalent_edited [One P] [Mul P] (B : Backend Q P) (cfg : Cfg) (hcopy : cfg.copyCbits = true) (mode : Mode)
+    (c0 : Circuit) (phases : List Int) (w0 : World Q P) (hsim : SimOwn w0.heap.size w0) (evs : List (HEv Q))
+    (hok : HEvsOk B cfg mode phases (w0, c0) evs) (call : Call Q)
+    (hdet : CallDet mode (execHEvs B cfg mode phases (w0, c0) evs).2 call)
+    (hcb : ∀ r : Nat, call.cb = some r → r < w0.heap.size) :
+    let wh := (execHEvs B cfg mode phases (w0, c0) evs).1
+    let ch := (execHEvs B cfg mode phases (w0, c0) evs).2
+    let wf : World Q P := { w0 with sim := none }
+    (exec B cfg mode ch phases wh call).2.val (exec B cfg mode ch phases wh call).1.heap =
+      (exec B cfg mode ch phases wf call).2.val (exec B cfg mode ch phases wf call).1.heap := by
+  intro wh ch wf
+  have hinv0 : Inv w0.heap.cells w0 := ⟨⟨[], by simp⟩, hsim⟩
+  have hinv := execHEvs_inv B cfg hcopy mode phases w0.heap.cells evs (w0, c0) hinv0 hok
+  have hsame : ∀ cb : Option Ref, (∀ r : Nat, cb = some r → r < w0.heap.size) →
+      cb.map wh.heap.get = cb.map wf.heap.get := by
+    intro cb hc
+    cases cb with
+    | none => rfl
+    | some r =>
+      simp only [Option.map_some, Option.some.injEq]
+      rw [inv_get hinv r (hc r rfl)]
+      simp [Heap.get, wf]
+  have hsz : w0.heap.size ≤ wh.heap.size := hinv.size_ge
+  cases call with
+  | run st cb mr =>
+    rw [run_value B cfg mode ch phases wh st cb mr (Or.inl hcopy),
+      run_value B cfg mode ch phases wf st cb mr (Or.inl hcopy), hsame cb hcb]
+    exact runV_det B cfg mode ch _ st mr _ _ hdet
+  | stat st cb =>
+    have hcb1 : CbOk wh cb := fun r hr => Nat.lt_of_lt_of_le (hcb r hr) hsz
+    have hcb2 : CbOk wf cb := fun r hr => hcb r hr
+    rw [stat_value B cfg mode ch phases wh st cb (Or.inl hcopy) hcb1,
+      stat_value B cfg mode ch phases wf st cb (Or.inl hcopy) hcb2, hsame cb hcb]
+    exact statV_det B cfg mode ch _ st _ _
+  | init _ _ _ => cases hdet
+  | step => cases hdet
+  | getState => cases hdet
+  | query => cases hdet
+  | compile _ _ => cases hdet
+  | load _ _ => cases hdet
+
 
 /-- **no_alias.** In any history, the list objects that the returned results refer to (one per `run`, one per
 surviving record of `run_statistics`) are pairwise different — within one result and across results of different
@@ -478,5 +527,15 @@ theorem C16_counterexample_state_getter :
     ((execAll Exact.backend cfgFixed .sv circXX [] (world0 []) [.init ket00 none none, .step, .getState, .step]).sim.map
         (·.f.form)) = some .tensor := by
   decide +kernel
+
+/-- `Z 0; X 1`: `circXX` with gate 0 replaced, same number of operations -/
+def circZX : Circuit := { nq := 2, ncb := 0, ops := [.gate ⟨5, [0], none, 0⟩, .gate ⟨0, [1], none, 0⟩] }
+
+-- non-vacuity of `fresh_equivalent_edited`: run `[X 0; X 1]`, replace gate 0 by `Z 0`, then `run_statistics`
+example :
+    HEvsOk Exact.backend cfgFixed .sv [] (world0 [], circXX) [.call (.run ket00 none none), .edit circZX] ∧
+    (execHEvs Exact.backend cfgFixed .sv [] (world0 [], circXX) [.call (.run ket00 none none), .edit circZX]).2 = circZX ∧
+    CallDet (Q := Exact.QS) .sv circZX (.stat ket00 none) :=
+  ⟨⟨fun r hr => (by cases hr), trivial⟩, rfl, trivial⟩
 
 end QipVerif.C16
